@@ -504,7 +504,8 @@ class CNF(SimpleSequence[Clause]):
         if k > len(in_list):
             # More true variables than there are variables: unsatisfiable.
             # (The bit comparison below would silently truncate `k`.)
-            self.prepend(CNF([Clause(in_list[0]), Clause(~in_list[0])]))
+            falsum = in_list[0] if in_list else self.get_fresh()
+            self.prepend(CNF([Clause(falsum), Clause(~falsum)]))
             return
         in_binary =  int_to_binary(k)
         sum_bits = self.pop_count(in_list, len(in_binary)+1)
@@ -534,7 +535,8 @@ class CNF(SimpleSequence[Clause]):
             return
         if not assert_less_than and k >= len(in_list):
             # The count can never be greater than `k`.
-            self.prepend(CNF([Clause(in_list[0]), Clause(~in_list[0])]))
+            falsum = in_list[0] if in_list else self.get_fresh()
+            self.prepend(CNF([Clause(falsum), Clause(~falsum)]))
             return
         in_binary = int_to_binary(k)
         sum_bits = self.pop_count(in_list, len(in_binary)+1)
